@@ -66,11 +66,13 @@ func (f *FlatNews) Write(p []byte) (int, error) {
 	f.mu.Lock()
 	defer f.mu.Unlock()
 
-	f.data = slices.Concat(p, f.data)
+	// The post becomes part of the board only once it is on disk: a post whose write failed is neither acknowledged nor
+	// announced, so it must not be served to readers (and written by the next post) either.
+	newData := slices.Concat(p, f.data)
 
 	tempFilePath := f.filePath + ".tmp"
 
-	if err := os.WriteFile(tempFilePath, f.data, 0644); err != nil {
+	if err := os.WriteFile(tempFilePath, newData, 0644); err != nil {
 		return 0, fmt.Errorf("write to temporary file: %v", err)
 	}
 
@@ -78,6 +80,8 @@ func (f *FlatNews) Write(p []byte) (int, error) {
 	if err := os.Rename(tempFilePath, f.filePath); err != nil {
 		return 0, fmt.Errorf("rename temporary file to final file: %v", err)
 	}
+
+	f.data = newData
 
 	return len(p), nil
 }
